@@ -307,6 +307,7 @@ def fixIntVec (t : OctaT) (i0 i1 : Int) (zNeg : Bool) : Int Ã— Int Ã— Int :=
 
 /-- the float expressions of `FloatVectorToQuantizedOctahedralCoords<float>` (all in `double`):
     returns the two rounded coordinates `floor(scaledÂ·center + 0.5)` and `scaled[2] < 0`.
+    (`abs_sum > 0.0` since the `fix:` commit for tiny normals; it was `> 1e-6` in the pinned tree.)
     `static_cast<int32_t>` is modelled by the saturating `Float.toInt32` (identical in range;
     out of range / NaN is UB in C++ and only reachable for non-finite input). -/
 def floatVecRound (t : OctaT) (v : Float32 Ã— Float32 Ã— Float32) : Int Ã— Int Ã— Bool :=
@@ -315,7 +316,7 @@ def floatVecRound (t : OctaT) (v : Float32 Ã— Float32 Ã— Float32) : Int Ã— Int Ã
   let z : Float := v.2.2.toFloat
   let absSum : Float := x.abs + y.abs + z.abs
   let sv : Float Ã— Float Ã— Float :=
-    if absSum > 1e-6 then
+    if absSum > 0.0 then
       let scale : Float := 1.0 / absSum
       (x * scale, y * scale, z * scale)
     else (1.0, 0.0, 0.0)
